@@ -127,6 +127,11 @@ template <typename Var> struct Api;
 template <> struct Api<Tensor> { static vector<float> vec(const Tensor &t) { return t.to_vector(); } static Shape shp(const Tensor &t) { return t.shape(); } };
 template <> struct Api<Node> { static vector<float> vec(const Node &t) { return t.to_vector(); } static Shape shp(const Node &t) { return t.shape(); } };
 
+// the non-template spellings zeros_tensor / zeros_node / ones_tensor / ones_node (pointer arguments)
+template <typename Var> struct ZerosOnes;
+template <> struct ZerosOnes<Tensor> { static Tensor zeros(const Shape &s, Device &d) { return F::zeros_tensor(s, &d); } static Tensor ones(const Shape &s, Device &d) { return F::ones_tensor(s, &d); } };
+template <> struct ZerosOnes<Node> { static Node zeros(const Shape &s, Device &d) { return F::zeros_node(s, &d, nullptr); } static Node ones(const Shape &s, Device &d) { return F::ones_node(s, &d, nullptr); } };
+
 struct Inputs { vector<float> x, t, y2, y3; vector<uint32_t> ids; uint32_t tB; };
 
 // runs the composite `fn` through API Var; returns (shape, values)
@@ -150,10 +155,13 @@ static std::pair<Shape, vector<float>> run_fn(const Case &c, const Inputs &in, D
   else if (f.compare(0, 9, "dropout_r") == 0) { float rate; bool on; parse_dropout(f, &rate, &on); y = F::dropout(x, rate, on); }
   else if (f == "container_sum" || f == "container_mean") {
     vector<Var> xs; xs.push_back(x); xs.push_back(F::input<Var>(sx, in.y2, dev)); xs.push_back(F::input<Var>(sx, in.y3, dev));
-    y = (f == "container_sum") ? F::sum(xs) : F::mean(xs);
+    if (c.seed & 1) {   // the container-of-pointers overloads (same documented value)
+      vector<const Var *> ps; for (const Var &v : xs) ps.push_back(&v);
+      y = (f == "container_sum") ? F::sum(ps) : F::mean(ps);
+    } else y = (f == "container_sum") ? F::sum(xs) : F::mean(xs);
   }
-  else if (f == "zeros") y = F::zeros<Var>(sx, dev);
-  else if (f == "ones") y = F::ones<Var>(sx, dev);
+  else if (f == "zeros") y = (c.seed & 1) ? ZerosOnes<Var>::zeros(sx, dev) : F::zeros<Var>(sx, dev);
+  else if (f == "ones") y = (c.seed & 1) ? ZerosOnes<Var>::ones(sx, dev) : F::ones<Var>(sx, dev);
   else throw std::runtime_error("unknown function " + f);
   return std::make_pair(Api<Var>::shp(y), Api<Var>::vec(y));
 }
